@@ -146,6 +146,7 @@ class EffectsQ:
     """effects mode over the open path (memory.rs map_mut_in / map_in and their closures), memmap-feature MIR"""
     name, props, tier, kind, timeout, selftest = "effects_open_path", ["C09"], "quick", "effects", 600, False
     module, native_flag, min_obligations = "mirsmt.effects", "--open-check", 3
+    cross_check = True
 
     def bounds(self):
         return ("all paths of map_mut_in / map_in and their closures (no loops in them), callees outside the crate opaque, "
